@@ -255,6 +255,7 @@ type Exchange struct {
 	Op          int
 	Attempt     int
 	CtxDone     bool // Send was entered with an expired context
+	fail        error
 }
 
 // Datagram is a queued datagram with a logical identity.
@@ -274,6 +275,9 @@ type Answer struct {
 	Late bool
 	// Pre runs before the BMC sees the request (e.g. a repository modification).
 	Pre func(t *Transport)
+	// Fail: Send returns this error at once (a socket error reported on the read
+	// that follows the write) instead of waiting for a datagram.
+	Fail error
 }
 
 // Transport is an in-memory model of one UDP socket in front of a BMC.
@@ -400,6 +404,11 @@ func (t *Transport) Send(ctx context.Context, b []byte) ([]byte, error) {
 		ex.Err = ErrNotDescendant
 	}
 	late := t.react(b, ex)
+	if ex.fail != nil {
+		t.Queue = append(t.Queue, late...)
+		ex.Err = ex.fail
+		return nil, ex.fail
+	}
 	if len(t.Queue) == 0 {
 		t.Queue = append(t.Queue, late...)
 		if t.Clock != nil {
@@ -459,6 +468,7 @@ func (t *Transport) react(b []byte, ex *Exchange) (late []Datagram) {
 	}
 	a := answers[choice]
 	ex.Answer = a.Name
+	ex.fail = a.Fail
 	if a.Pre != nil {
 		a.Pre(t)
 	}
@@ -520,6 +530,11 @@ func Code(name string, cc byte) Answer {
 
 // LostReply: the BMC processed the request, its reply never arrives.
 func LostReply() Answer { return Answer{Name: "lost-reply"} }
+
+// SocketError: the request reaches the BMC, its reply does not come back, and
+// the read fails at once with err (e.g. an ICMP "host unreachable" surfacing on
+// a connected UDP socket) rather than with a timeout.
+func SocketError(name string, err error) Answer { return Answer{Name: name, Fail: err} }
 
 // LostRequest: the request never reaches the BMC.
 func LostRequest() Answer { return Answer{Name: "lost-request", LostRequest: true} }
